@@ -477,13 +477,20 @@ impl<'a> Unquote<'a> {
     /// Returns the unquoted version of this string as a copy-on-write string.
     pub fn to_cow(&self) -> Cow<'a, str> {
         let str_ref = self.inner.as_str();
-        if self.is_quoted() {
-            if str_ref.find('\\').is_some() {
-                Cow::from(self.to_string())
-            } else {
-                // String is quoted but has no escapes.
-                Cow::from(&str_ref[1..str_ref.len() - 1])
+        if self.is_quoted() && self.state == UnquoteState::NotStarted {
+            let inner = &str_ref[1..];
+            match inner.find(|c| c == '"' || c == QUOTE_ESCAPE_CHAR) {
+                // The closing quote comes before any escape: borrow up to it.
+                Some(end) if inner[end..].starts_with('"') => {
+                    Cow::from(&inner[..end])
+                }
+                // Unterminated quoted string without escapes.
+                None => Cow::from(inner),
+                // There is an escape before the closing quote.
+                Some(_) => Cow::from(self.to_string()),
             }
+        } else if self.is_quoted() {
+            Cow::from(self.to_string())
         } else {
             Cow::from(str_ref)
         }
